@@ -79,8 +79,10 @@ package memfs
 // rename(2) with the rules of os.Rename: the source must exist; the destination directory must
 // exist; a directory is never replaced (EEXIST, Go's rule) and never replaces a file (ENOTDIR).
 //@ func (*MemFS).Rename
+// both names refer to the same node (the same path, or two hard links of one file): rename(2) does nothing
+//@   ensures[C01,C05] ncalls(vfs.searchNode) == 2 && result("vfs.searchNode#1", 1) != nil && result("vfs.searchNode#0", 1) == result("vfs.searchNode#1", 1) ==> unchanged(dirNode.children, MD.string.memfs.node, MV.string.memfs.node, fileNode.nlink, fileNode.data, baseNode.mode, baseNode.uid, baseNode.gid, symlinkNode.link)
 // a refused rename has touched nothing (in particular not the destination it would have replaced)
 //@   ensures[C05,C01] r0 != nil ==> unchanged(dirNode.children, MD.string.memfs.node, MV.string.memfs.node, fileNode.nlink, fileNode.data, baseNode.mode, baseNode.uid, baseNode.gid, symlinkNode.link)
 //@   ensures[C01] result("vfs.searchNode#0", 3) != vfs.err.FileExists ==> lerr(r0, result("vfs.searchNode#0", 3))
 //@   ensures[C01] r0 == nil && ncalls(vfs.searchNode) == 2 && result("vfs.searchNode#1", 1) == nil ==> walkLast(result("vfs.searchNode#1", 2))
-//@   ensures[C01] ncalls(vfs.searchNode) == 2 && result("vfs.searchNode#0", 1) is *dirNode && result("vfs.searchNode#1", 3) == vfs.err.FileExists && result("vfs.searchNode#1", 1) is *fileNode && vfs.osType != avfs.OsWindows && old(oldpath) != old(newpath) ==> r0 == nil || lerr(r0, vfs.err.NotADirectory) || lerr(r0, vfs.err.PermDenied) || lerr(r0, vfs.err.InvalidArgument)
+//@   ensures[C01] ncalls(vfs.searchNode) == 2 && result("vfs.searchNode#0", 1) is *dirNode && result("vfs.searchNode#1", 3) == vfs.err.FileExists && result("vfs.searchNode#1", 1) is *fileNode && vfs.osType != avfs.OsWindows && result("vfs.searchNode#0", 2).path != result("vfs.searchNode#1", 2).path ==> r0 == nil || lerr(r0, vfs.err.NotADirectory) || lerr(r0, vfs.err.PermDenied) || lerr(r0, vfs.err.InvalidArgument)
